@@ -636,6 +636,25 @@ func ztCConcurrency(a, b int64, s string) string {
 	return r
 }
 
+// per-iteration variables written by the spawner before the go statement and read by the goroutine: ordered by the go
+// statement, not a race
+func ztCCaptured(a, b int64, s string) string {
+	xs := []int64{a, b, a + b}
+	out := make([]int64, len(xs))
+	var wg sync.WaitGroup
+	for i, x := range xs {
+		next := xs[min(i+1, len(xs)-1)]
+		label := s + zti(int64(i))
+		wg.Add(1)
+		go func() {
+			defer wg.Done()
+			out[i] = x*2 + next + int64(len(label))
+		}()
+	}
+	wg.Wait()
+	return zti(out[0]) + " " + zti(out[1]) + " " + zti(out[2])
+}
+
 func ztCAtomics(a, b int64, s string) string {
 	var n atomic.Int64
 	var flag atomic.Bool
@@ -722,7 +741,7 @@ var ZtCases = []ZtCase{
 	{"Arith", ztCArith}, {"Shift", ztCShift}, {"Conv", ztCConv}, {"Cmp", ztCCmp}, {"DivUnsigned", ztCDivUnsigned},
 	{"String", ztCString}, {"Strings", ztCStrings}, {"Strconv", ztCStrconv}, {"Slices", ztCSlices}, {"Structs", ztCStructs},
 	{"Maps", ztCMaps}, {"Ifaces", ztCIfaces}, {"Closures", ztCClosures}, {"Defer", ztCDefer}, {"Control", ztCControl},
-	{"Generics", ztCGenerics}, {"Concurrency", ztCConcurrency}, {"Atomics", ztCAtomics}, {"Bytes", ztCBytes}, {"Time", ztCTime},
+	{"Generics", ztCGenerics}, {"Concurrency", ztCConcurrency}, {"Atomics", ztCAtomics}, {"Captured", ztCCaptured}, {"Bytes", ztCBytes}, {"Time", ztCTime},
 }
 
 // ---------------------------------------------------------------- symbolic family (integers only)
